@@ -64,6 +64,7 @@ class OpHistory(Harness):
     with_stopped_prefix = True
     reach = ("nontrivial", "expiry", "partial-fill", "cancel-of-filled", "cancel-of-expired")
     assumptions = ("prices on the tick grid (tick 1); off-grid prices are C19's subject",
+                   "Market.chunk_size is set to 2 so that the series storage is extended inside short histories",
                    "the market is driven the way SequentialRunner drives it: a round after every accepted "
                    "order/cancel iff the market is running")
     outside = ("histories longer than the stated number of operations", "float rounding of price sums")
@@ -127,7 +128,7 @@ class OpHistory(Harness):
     # ---- the run
     def run(self, g, case):
         lg = RecLogger()
-        m = mk_market(tick=1, price=300, logger=lg, running=case.get("start_running", True))
+        m = mk_market(tick=1, price=300, logger=lg, running=case.get("start_running", True), chunk=2)
         ref = Ref()
         st = {"last_trade": None, "seen": 0, "fills_t": {}, "nb_t": {}, "ns_t": {}, "mid": m.get_mid_price(),
               "mp": m.get_market_price(), "ever_trade": False}
